@@ -73,6 +73,25 @@ string LogAttributesContainer::getAttribute( const string& attr_name) const
 
 
 
+/// Returns if an attribute with the given name exists, whatever its value.
+///
+/// @param[in]  attr_name
+///    The name of the attribute to look for.
+/// @return  \c true if an attribute with this name is stored.
+bool LogAttributesContainer::hasAttribute( const string& attr_name) const
+{
+
+   for (auto const& attr : mAttributes)
+   {
+      if (std::get< 0>( attr) == attr_name)
+         return true;
+   } // end for
+
+   return false;
+} // LogAttributesContainer::hasAttribute
+
+
+
 /// Removes the atribute that was added last.
 ///
 /// @since  1.15.0, 16.03.2018
